@@ -42,7 +42,13 @@ DigestOf(c, z) == CASE c = "right" -> z
                     [] c = "plus1" -> Pad32(AddU(z, <<1>>))
                     [] c = "minus1" -> Pad32(SubU(z, <<1>>))
                     [] c = "zero" -> Rep(0, 32)
-KeyClasses == <<"right", "uncompressed", "other", "negated", "offcurve-xy", "offcurve-x">>
+\* classes of public-key octet strings (instantiated by the harness, which owns the curve arithmetic; what each
+\* string denotes is decided by PubKeyOk from the bytes, not from the class name)
+KeyClasses == <<"right", "uncompressed", "other", "negated", "offcurve-xy", "offcurve-x",
+                "x-plus-p", "x-plus-p-uncompressed", "y-plus-p", "infinity-00", "x-zero", "empty",
+                "prefix04-compressed-length", "prefix02-uncompressed-length", "prefix03-uncompressed-length", "prefix05",
+                "prefix00-compressed-length", "hybrid", "one-byte-short", "one-byte-long", "uncompressed-y-negated",
+                "uncompressed-y-other-parity", "uncompressed-x-y-swapped">>
 OnlyRight == <<"right">>
 
 SX == INSTANCE SequencesExt
@@ -71,7 +77,7 @@ Table(b) ==
                                                    e \in {"raw64", "der"} }
         Bs == { <<PairsB[i][1], PairsB[i][2], "right", e, OnlyRight>> : i \in 1..Len(PairsB), e \in EncClasses }
         C == { <<PairsC[i][1], PairsC[i][2], zc, e, OnlyRight>> : i \in 1..Len(PairsC), zc \in {"plus1", "minus1", "zero"}, e \in {"raw64", "der"} }
-        D == { <<PairsC[i][1], PairsC[i][2], "right", e, KeyClasses>> : i \in 1..Len(PairsC), e \in {"raw64", "der"} }
+        D == { <<PairsC[i][1], PairsC[i][2], "right", e, IF b.allkeys THEN KeyClasses ELSE SubSeq(KeyClasses, 1, 6)>> : i \in 1..Len(PairsC), e \in {"raw64", "der"} }
         \* b.lite: only the digest and key classes (used for the many digest classes the harness brings, e.g. digests whose
         \* bytes are ASCII text)
         all == IF b.lite THEN C \cup D
@@ -117,11 +123,12 @@ Judge(rec) ==
     [] rec.k = "denote" ->
          LET d == Denote(rec.sig) t == TailPairD(rec.sig, d) IN
          [v |-> "ok", dev |-> "", exp |-> <<>>, kind |-> d.kind, dr |-> d.r, ds |-> d.s, tail |-> t.ok, tr |-> t.r, ts |-> t.s]
-    [] rec.k = "vcase" ->       \* sig, oncurve, eq (facts; eq computed for the pair fr, fs; eqt for the pair tr, ts), obs
-         LET d == Denote(rec.sig) t == TailPairD(rec.sig, d) IN
-         IF Denoting(d) /\ (Norm(rec.fr) # d.r \/ Norm(rec.fs) # d.s) THEN Bad("oracle-fact-for-wrong-pair", "", <<d.r, d.s>>)
+    [] rec.k = "vcase" ->       \* sig, pub, curveeq, havept, eq (facts; eq computed for the pair fr, fs; eqt for tr, ts), obs
+         LET d == Denote(rec.sig) t == TailPairD(rec.sig, d) onCurve == PubKeyOk(rec.pub, Prime256, 32, rec.curveeq) IN
+         IF onCurve /\ ~rec.havept THEN Bad("oracle-fact-for-wrong-pair", "", <<>>)      \* the reference must know the point
+         ELSE IF Denoting(d) /\ (Norm(rec.fr) # d.r \/ Norm(rec.fs) # d.s) THEN Bad("oracle-fact-for-wrong-pair", "", <<d.r, d.s>>)
          ELSE IF t.ok /\ (Norm(rec.tr) # t.r \/ Norm(rec.ts) # t.s) THEN Bad("oracle-fact-for-wrong-pair", "", <<t.r, t.s>>)
-         ELSE VerifyVerdictT(rec.sig, N, rec.oncurve, rec.eq, rec.eqt, rec.obs)
+         ELSE PubKeyDeviations(VerifyVerdictT(rec.sig, N, onCurve, rec.eq, rec.eqt, rec.obs), rec.pub, 32, rec.keyform, rec.obs, rec.eqalt)
     [] rec.k = "pcase" -> ParseVerdict(rec.sig, N, rec.p)
     [] rec.k = "strace" ->
          LET fs == RunTrace(LedgerInit, rec.events, 1, <<>>) IN
